@@ -8,7 +8,7 @@ Model of `bpp::AbstractDiscreteDistribution`
 
  * the tolerance-ordered `std::map<double,double,Order>` (h:35-69, h:80) as an association list
    kept in iteration order (`TMap`);
- * `discretizeEqualProportions` (cpp:294-450), `discretizeEqualIntervals` (cpp:454-490),
+ * `discretizeEqualProportions`, `insertClass_`, `discretizeEqualIntervals` (cpp:310-560),
    `discretize` (cpp:494-523), `getBounds`/`getBound` (cpp:527-537, h:141-146),
    `getValueCategory` / `getCategoryIndex` (cpp:259-290), the four cumulative class queries
    (cpp:185-245), `restrictToConstraint` (cpp:539-556), `setNumberOfCategories` (cpp:66-76),
@@ -23,7 +23,8 @@ points the algorithm queried them (gamma, beta, gaussian: the special functions 
 This is the code *after* the repairs recorded in findings/C09.json; the code as found is kept
 in `namespace Legacy` for the look-ups (witness theorems in BppProofs/Props/C09.lean).
 NaN is not modelled.  An infinite `while` loop of the C++ is a loop with fuel here; running out of
-fuel is the explicit outcome `Err.fuel`.
+fuel is the explicit outcome `Err.fuel` — unreachable for a positive precision (theorem
+`discretize_terminates`).
 -/
 namespace Bpp.Discretize
 open Bpp Bpp.Scalar
@@ -312,17 +313,30 @@ def eqProp (par : Parent α) (s : DD α) : Except Err (DD α) :=
   | some m => .ok { s with dist := m, bounds := bounds }
   | none => .error .fuel
 
-/-- `discretizeEqualIntervals()` (cpp:454-490) -/
-def eqInt (par : Parent α) (s : DD α) : DD α :=
+/-- `insertClass_(value, p)` for a list of (value, probability) pairs -/
+def insertPairs (prec hi : α) : TMap α → List (α × α) → Option (TMap α)
+  | m, [] => some m
+  | m, vp :: vps => (insertDistinct prec hi vp.2 m vp.1).bind (fun m' => insertPairs prec hi m' vps)
+
+/-- the class masses of `discretizeEqualIntervals()` (repaired: a domain without mass — `condProb`
+zero or NaN — gets classes of equal probability, as in `discretizeEqualProportions`) -/
+def eqIntMasses (par : Parent α) (n : Nat) (condProb : α) (allBounds : List α) : List α :=
+  (pairs allBounds).map (fun fs =>
+    if Scalar.gtb condProb Scalar.zero then (par.P fs.2 - par.P fs.1) / condProb else Scalar.one / nat n)
+
+/-- `discretizeEqualIntervals()` (repaired: the class values are inserted with `insertClass_`, which
+keeps them distinct on a domain narrower than `n` times the precision) -/
+def eqInt (par : Parent α) (s : DD α) : Except Err (DD α) :=
   let lo := s.dom.lo
   let hi := s.dom.hi
   let condProb := par.P hi - par.P lo
   let interval := (hi - lo) / nat s.n
   let bounds := (List.range (s.n - 1)).map (fun i => lo + (nat i + Scalar.one) * interval)
   let values := (List.range s.n).map (fun i => lo + (nat i + half) * interval)
-  let masses := (pairs (lo :: bounds ++ [hi])).map (fun fs => (par.P fs.2 - par.P fs.1) / condProb)
-  let m := (values.zip masses).foldl (fun m vp => TMap.assign s.prec vp.1 vp.2 m) []
-  { s with dist := m, bounds := bounds }
+  let masses := eqIntMasses par s.n condProb (lo :: bounds ++ [hi])
+  match insertPairs s.prec hi [] (values.zip masses) with
+  | some m => .ok { s with dist := m, bounds := bounds }
+  | none => .error .fuel
 
 /-- two consecutive entries are `==` (cpp:512-516) -/
 def hasEqualNeighbours : List α → Bool
@@ -334,10 +348,10 @@ not modelled (`Err.ub`). -/
 def discretize (par : Parent α) (s : DD α) : Except Err (DD α) :=
   if s.n == 0 then .error .ub
   else if s.scheme == 1 then eqProp par s
-  else if s.scheme == 2 then .ok (eqInt par s)
+  else if s.scheme == 2 then eqInt par s
   else do
     let s1 ← eqProp par s
-    if hasEqualNeighbours s1.allBounds then .ok (eqInt par s1) else .ok s1
+    if hasEqualNeighbours s1.allBounds then eqInt par s1 else .ok s1
 
 /-- `setNumberOfCategories(nbClasses)` (cpp:66-76) -/
 def setNumberOfCategories (par : Parent α) (s : DD α) (n : Nat) : Except Err (DD α) :=
@@ -428,6 +442,19 @@ def separated (prec : α) : List α → Bool
 def resolved (par : Parent α) (s : DD α) : Bool :=
   let raw := (eqPropRaw par s).2
   listEqB (adjust s.dom s.prec raw) raw && separated s.prec raw
+
+/-- no mean-valued class fell back to the midpoint of its bounds (cpp:375, 385: "may happen if the
+two bounds are undistinguishable").  Under `H` in exact arithmetic the fallback never triggers
+(`meanValue_mem`); in doubles it does when the quantile's error is not small against the class
+width, and the discrete mean is then not the parent's mean. -/
+def noMeanFallback (par : Parent α) (s : DD α) : Bool :=
+  let minX := par.P s.dom.lo
+  let maxX := par.P s.dom.hi
+  Scalar.eqb maxX minX || s.median ||
+    (let ec := (maxX - minX) / nat s.n
+     (pairs (s.dom.lo :: eqPropBounds par s.n s.dom.lo s.dom.hi minX ec ++ [s.dom.hi])).all (fun fs =>
+       let v := (par.E fs.2 - par.E fs.1) / ec
+       Scalar.geb v fs.1 && Scalar.leb v fs.2))
 
 /-- the medians of the non-degenerate branch are rescaled (condition of `rescale`) -/
 def rescaledB (par : Parent α) (s : DD α) : Bool :=
